@@ -160,6 +160,100 @@ fn maybe_reorder(case: &mut Case, r: &mut Prng, per_mille: u32) {
     }
 }
 
+/// Two (or three) rows on DIFFERENT source lines whose entries are identical and hold >= 4 X on
+/// input columns: everything about them is equal except the line they come from.
+pub fn plant_twin_x_rows(case: &mut Case, r: &mut Prng) -> bool {
+    let is_input_col: Vec<bool> = case.program.header.iter().map(|h| case.signals.iter().any(|s| &s.name == h && s.is_input())).collect();
+    let mut found = None;
+    for (i, it) in case.program.items.iter().enumerate() {
+        if let Item::Row(_, es) = it {
+            let mut col = 0;
+            let mut cand = vec![];
+            for (k, e) in es.iter().enumerate() {
+                if e.width() == 1 && is_input_col.get(col) == Some(&true) && matches!(e, Entry::Lit(..) | Entry::X(_) | Entry::Z(_)) {
+                    cand.push(k);
+                }
+                col += e.width();
+            }
+            if cand.len() >= 4 {
+                found = Some((i, cand));
+                break;
+            }
+        }
+    }
+    let Some((i, mut cand)) = found else { return false };
+    r.shuffle(&mut cand);
+    let nx = 4 + r.below(2).min(cand.len() - 4);
+    let Item::Row(_, es) = &mut case.program.items[i] else { return false };
+    for &k in cand.iter().take(nx) {
+        es[k] = Entry::X(false);
+    }
+    // literal-only twin: entries that evaluate alike whenever they are evaluated
+    if es.iter().any(|e| matches!(e, Entry::Paren(_) | Entry::Bits(..))) {
+        return false;
+    }
+    let twin = Item::Row(0, es.clone());
+    let mut at = i + 1;
+    if r.chance(1, 2) {
+        case.program.items.insert(at, if r.chance(1, 2) { Item::Blank } else { Item::Comment(" twin follows".into()) });
+        at += 1;
+    }
+    case.program.items.insert(at, twin.clone());
+    if r.chance(1, 2) {
+        case.program.items.push(twin);
+    }
+    let mut next = 0;
+    renumber(&mut case.program.items, &mut next);
+    true
+}
+
+/// A small program built around twin rows: rows on different source lines with identical
+/// literal entries and 4-5 X on input columns, with other statements between them.
+pub fn twin_x_case(r: &mut Prng) -> Case {
+    let n_in = 5 + r.below(3);
+    let mut sigs: Vec<Sig> = (0..n_in).map(|i| Sig { name: format!("I{i}"), bits: 1, kind: SigKind::In(InVal::V(0)) }).collect();
+    sigs.push(Sig { name: "O".into(), bits: 4, kind: SigKind::Out });
+    let header: Vec<String> = sigs.iter().map(|s| s.name.clone()).collect();
+    let nx = 4 + r.below(2);
+    let mut xs: Vec<usize> = (0..n_in).collect();
+    r.shuffle(&mut xs);
+    xs.truncate(nx);
+    let twin: Vec<Entry> = (0..n_in)
+        .map(|i| if xs.contains(&i) { Entry::X(false) } else { Entry::Lit(r.range(0, 1), Radix::Dec) })
+        .chain(std::iter::once(Entry::X(false)))
+        .collect();
+    let mut plain: Vec<Entry> = (0..n_in).map(|_| Entry::Lit(r.range(0, 1), Radix::Dec)).collect();
+    plain.push(Entry::Lit(r.range(0, 9), Radix::Dec));
+    let mut items = vec![];
+    if r.chance(1, 2) {
+        items.push(Item::Row(0, plain.clone()));
+    }
+    items.push(Item::Row(0, twin.clone()));
+    match r.below(4) {
+        0 => {}
+        1 => items.push(Item::Blank),
+        2 => items.push(Item::Comment(" the same row again".into())),
+        _ => items.push(Item::Let("k".into(), Expr::Num(3, Radix::Dec))),
+    }
+    items.push(Item::Row(0, twin.clone()));
+    if r.chance(1, 2) {
+        items.push(Item::Loop("i".into(), Expr::Num(2, Radix::Dec), vec![Item::Row(0, twin.clone())]));
+    }
+    if r.chance(1, 2) {
+        items.push(Item::Row(0, plain));
+        items.push(Item::Row(0, twin));
+    }
+    let mut next = 0;
+    renumber(&mut items, &mut next);
+    Case {
+        program: Program { header, items },
+        signals: sigs,
+        script: Script { layout: vec![n_in], values: ValueFn::Small { salt: r.next_u64(), modulus: 16 }, faults: vec![], override_write: r.chance(1, 2), rebuild_signals: false },
+        layout_opts: crate::pp::Layout::plain(),
+        rng_seed: 1,
+    }
+}
+
 // ----------------------------------------------------------------------------------- C02
 
 pub const META_C02: Meta = Meta {
@@ -634,6 +728,12 @@ pub fn c05(case_seed: u64, acc: &mut Acc) {
     }
     let cfg = profile_expand();
     let mut case = gen::generate(&mut r, &cfg);
+    if r.chance(40, 1000) && plant_twin_x_rows(&mut case, &mut r) {
+        acc.tag("twin_rows_with_ge4_X_on_different_lines");
+    } else if r.chance(20, 1000) {
+        case = twin_x_case(&mut r);
+        acc.tag("twin_rows_with_ge4_X_on_different_lines");
+    }
     // an error item in the middle of an expansion (the driver refuses one of its writes) must
     // not disturb the rest of it
     maybe_fault(&mut case, &mut r, 200);
@@ -998,6 +1098,33 @@ pub fn c18(case_seed: u64, acc: &mut Acc) {
             return;
         }
     }
+    if r.chance(25, 1000) && !case.program.uses_random() {
+        // many variables (just beyond 64 / 128 / 256) and a deep nest of short loops, each
+        // shadowing one of them: sizes at which a small-map or bit-set shortcut would change
+        let template = case.program.items.iter().find_map(|i| if let Item::Row(_, es) = i { Some(es.clone()) } else { None });
+        if let Some(es) = template {
+            let n = *r.pick(&[65usize, 66, 129, 130, 257]);
+            let mut pre: Vec<Item> = (0..n).map(|k| Item::Let(format!("w_{k}"), Expr::Num(k as i64, Radix::Dec))).collect();
+            let depth = 2 + r.below(11);
+            let mut inner: Vec<Item> = vec![Item::Row(0, es.clone())];
+            for d in (0..depth).rev() {
+                let shadow = format!("w_{}", r.below(n));
+                let mut body = vec![Item::Let(shadow, Expr::Num(1000 + d as i64, Radix::Dec))];
+                if r.chance(1, 3) {
+                    body.push(Item::Row(0, es.clone()));
+                }
+                body.extend(inner);
+                inner = vec![Item::Loop(format!("c{d}"), Expr::Num(1 + (d % 2) as i64, Radix::Dec), body)];
+            }
+            pre.append(&mut case.program.items);
+            pre.extend(inner);
+            pre.push(Item::Row(0, es));
+            case.program.items = pre;
+            let mut next = 0;
+            renumber(&mut case.program.items, &mut next);
+            acc.tag("many_variables_65_to_257_and_loop_nest_2_to_12_deep");
+        }
+    }
     maybe_fault(&mut case, &mut r, 150);
     maybe_reorder(&mut case, &mut r, 60);
     let held_before = acc.held;
@@ -1030,7 +1157,7 @@ pub fn c18(case_seed: u64, acc: &mut Acc) {
 pub const META_C19: Meta = Meta {
     id: "C19",
     level: "exploration",
-    rule: "Cases from profile `layout-lines`: 0-5 blank lines before the header; after it any mix of blank lines, comment-only lines, trailing comments and ragged indentation; LF, CRLF and mixed endings, stray CRs (not part of a CRLF pair) in the blank run before a line terminator; rows at depth 0-4, repeat rows, rows right after `end loop`, last line with and without newline. The printer records the 1-based line on which it prints each row item; the reference says which row item produces the k-th yielded row; every DataRow.line must equal that recorded line (the same for all X/C expansions and loop iterations). 40% of the cases are additionally embedded as a Testcase in a generated .dig document (entities / CDATA, indentation varied) and loaded through dig::File::parse(..).load_test(0), and 30% of the static ones are iterated through try_iter_static: lines must be the same, relative to the test's own source. Non-trivial = >= 1 blank or comment line above a row and (a row at depth >= 1 or a repeat row); distinct by source text.",
+    rule: "Cases from profile `layout-lines`: 0-5 blank lines before the header; after it any mix of blank lines, comment-only lines, trailing comments and ragged indentation; LF, CRLF and mixed endings, stray CRs (not part of a CRLF pair) in the blank run before a line terminator; rows at depth 0-4, repeat rows, rows right after `end loop`, last line with and without newline. 3% of the cases are small programs built around twin rows: rows on different lines with identical literal entries and 4-5 X on input columns, separated by other statements, blank lines, comments or a loop. The printer records the 1-based line on which it prints each row item; the reference says which row item produces the k-th yielded row; every DataRow.line must equal that recorded line (the same for all X/C expansions and loop iterations). 40% of the cases are additionally embedded as a Testcase in a generated .dig document (entities / CDATA, indentation varied) and loaded through dig::File::parse(..).load_test(0), and 30% of the static ones are iterated through try_iter_static: lines must be the same, relative to the test's own source. Non-trivial = >= 1 blank or comment line above a row and (a row at depth >= 1 or a repeat row); distinct by source text.",
     assumptions: &["reference interpreter decides which source row each yielded row comes from"],
     quick_cases: 120000,
     thorough_cases: 2000000,
@@ -1052,6 +1179,12 @@ pub fn c19(case_seed: u64, acc: &mut Acc) {
     let mut r = Prng::new(case_seed);
     let cfg = profile_lines();
     let mut case = gen::generate(&mut r, &cfg);
+    if r.chance(30, 1000) {
+        // rows that are equal in everything but the line they stand on
+        case = twin_x_case(&mut r);
+        case.layout_opts.salt = r.next_u64();
+        acc.tag("twin_rows_with_ge4_X_on_different_lines");
+    }
     // layout stress
     case.layout_opts.leading_blank = r.below(6);
     case.layout_opts.eol = r.below(3) as u8;
@@ -1059,6 +1192,9 @@ pub fn c19(case_seed: u64, acc: &mut Acc) {
     case.layout_opts.indent = r.below(4) as u8;
     case.layout_opts.trailing_newline = r.chance(1, 2);
     case.layout_opts.stray_cr = *r.pick(&[0, 0, 150, 400]);
+    if r.chance(60, 1000) && plant_twin_x_rows(&mut case, &mut r) {
+        acc.tag("twin_rows_with_ge4_X_on_different_lines");
+    }
     let ran = run_oracles(
         &case,
         case_seed,
